@@ -367,10 +367,12 @@ func (gi *gitlabImporter) ensurePerson(repo *cache.RepoCache, id int) (*cache.Id
 		return nil, err
 	}
 
+	// the texts of the tracker are cleaned like every other imported text,
+	// otherwise a control character makes the identity invalid
 	i, err = repo.Identities().NewRaw(
-		user.Name,
-		user.PublicEmail,
-		user.Username,
+		text.CleanupOneLine(user.Name),
+		text.CleanupOneLine(user.PublicEmail),
+		text.CleanupOneLine(user.Username),
 		user.AvatarURL,
 		nil,
 		map[string]string{
